@@ -40,7 +40,7 @@ pub(crate) fn synthesize_expr(
     }
 
     let raw = synth_raw(ctx, expr, current, target_width)?;
-    Ok(resize(raw, target_width, expr_signed(expr)))
+    Ok(resize(raw, target_width, extends_signed(expr)))
 }
 
 /// Width an operand needs so that no significant bit is lost: the analyzer's
@@ -81,6 +81,23 @@ pub(crate) fn synthesize_condition(
 
 fn expr_signed(expr: &Expression) -> bool {
     expr.comptime().r#type.signed
+}
+
+/// An operand is sign-extended only when it is signed *and* the expression it is a
+/// context-determined operand of is signed (IEEE 1800-2017 11.8.1/11.8.2: one unsigned
+/// operand makes the whole expression unsigned and every operand is zero-extended).
+/// The analyzer records the propagated context in `expr_context`; width 0 means it
+/// never visited this node, in which case the operand's own type decides.
+fn extends_signed(expr: &Expression) -> bool {
+    // A bit / part select is unsigned whatever the selected variable is (11.8.1).
+    if let Expression::Term(factor) = expr
+        && let Factor::Variable(_, _, select, _) = factor.as_ref()
+        && !select.is_empty()
+    {
+        return false;
+    }
+    let ec = expr.comptime().expr_context;
+    expr_signed(expr) && (ec.width == 0 || ec.signed)
 }
 
 pub(crate) fn try_constant(expr: &Expression) -> Option<u64> {
@@ -748,7 +765,10 @@ fn synth_binary(
                 .max(1);
             let xs = synthesize_expr(ctx, x, current, w)?;
             let ys = synthesize_expr(ctx, y, current, w)?;
-            let result = arith::compare(ctx, &xs, &ys, op, signed)?;
+            // A relational operator compares signed only when both operands are
+            // signed; the surrounding expression's signedness (`signed`) is about
+            // the 1-bit result, not about the operands.
+            let result = arith::compare(ctx, &xs, &ys, op, expr_signed(x) && expr_signed(y))?;
             Ok(resize(vec![result], result_width, false))
         }
         Op::LogicShiftL | Op::LogicShiftR | Op::ArithShiftL | Op::ArithShiftR => {
@@ -762,7 +782,7 @@ fn synth_binary(
             };
             let xs = synthesize_expr(ctx, x, current, w)?;
             // `>>>` is arithmetic only for a signed operand (IEEE 1800 11.4.10).
-            let signed_ext = matches!(op, Op::ArithShiftR) && expr_signed(x);
+            let signed_ext = matches!(op, Op::ArithShiftR) && extends_signed(x);
             let mut out = if let Some(amount) = try_constant(y).map(|n| n as usize) {
                 arith::constant_shift(ctx, &xs, op, amount, signed_ext)
             } else {
